@@ -275,7 +275,7 @@ def run(job):
             run_real_churn(job, res)
         elif job["kind"] == "random":
             rng = core.rng_for(ID, job["seed"], job["gw"], job["flavour"])
-            alpha = ALPHA[(job["gw"], job["flavour"])]
+            alpha = ALPHA[(job["gw"], job["flavour"])] + (["wedge"] if (job["gw"], job["flavour"]) == ("tcp", "asyncio") else [])
             for k in range(job["n"]):
                 script = [rng.choice(alpha) for _ in range(rng.randint(4, job["maxlen"]))]
                 ev, meta = run_life(job["gw"], job["flavour"], rng.randint(0, 10**6), script, rng.choice(RTS))
@@ -303,6 +303,13 @@ def run(job):
                 res.count("watchdog_silent_links")
                 res.nontrivial(("watchdog", fl, rt, "silent-later"))
                 if fl == "asyncio":
+                    # the device stops reading as well: the probes stay in the transport's write buffer
+                    ev, meta = run_life("tcp", fl, job["seed"], ["ok", "traffic", "wedge"], rt, answer=0.1 * rt, hold=5 * rt)
+                    meta["hold"] = 5 * rt
+                    judge(res, ev, meta, L.check_watchdog(ev, meta, "silent"))
+                    res.count("watchdog_silent_links")
+                    res.count("watchdog_links_with_unsent_data")
+                    res.nontrivial(("watchdog", fl, rt, "wedged"))
                     # the same with an application whose connection-made callback raises on the first connection
                     ev, meta = run_life("tcp", fl, job["seed"], ["ok"], rt, answer=None, hold=5 * rt, made_raises=True)
                     meta["hold"] = 5 * rt
@@ -361,7 +368,9 @@ def finish(agg, tier):
                 "never dropped, silent links dropped no earlier than 2 x rt, a started gateway dials at all; every other threaded lifetime runs beside a second "
                 "threaded gateway of the other kind whose device is not there and which keeps dialling; an anomaly counts only if it reproduces on two "
                 "re-runs, each in an interpreter of its own. In every fourth asyncio lifetime (simulated) and in extra watchdog runs the application's "
-                "connection-made callback raises on the first connection: supervision of the link must not depend on it. Real "
+                "connection-made callback raises on the first connection: supervision of the link must not depend on it. Token `wedge` (asyncio TCP): the device "
+                "stops reading as well as answering, so that what the gateway writes stays in the transport's buffer and a graceful close() never completes - the "
+                "link must still be reported lost and re-dialled. Real "
                 "churn: the same four gateways while three threads queue commands and the device kills the link every 3-600 ms for "
                 "2-4 s, then a quiet phase, a final batch and stop(): made == lost callbacks, (TCP) accepted == made, commands flow "
                 "again once the faults stop, nothing after stop().",
@@ -375,7 +384,8 @@ def finish(agg, tier):
                      + [(f"real_churn_runs[{k}/{fl}]", c.get(f"real_churn_runs[{k}/{fl}]", 0), 1) for (k, fl) in ALPHA]
                      + [("real_lifetimes_beside_a_gateway_that_keeps_dialling", c.get("real_lifetimes_beside_a_gateway_that_keeps_dialling", 0), 4)])
                   + [("lifetimes_whose_made_callback_raised", c.get("lifetimes_whose_made_callback_raised", 0), 40),
-                     ("watchdog_links_whose_made_callback_raised", c.get("watchdog_links_whose_made_callback_raised", 0), 6)],
+                     ("watchdog_links_whose_made_callback_raised", c.get("watchdog_links_whose_made_callback_raised", 0), 6),
+                     ("watchdog_links_with_unsent_data", c.get("watchdog_links_with_unsent_data", 0), 3)],
         "assumptions": ["real-device sample: deadlines are generous (6 x rt + 4 s) and anomalies must reproduce 3/3; it is skipped (noted) where ptys / loopback are unavailable",
                         "fakes mimic the failure behaviour of serial ports, sockets and asyncio transports; 'about twice' = [2, 3] x rt",
                         "on the threaded TCP gateway a peer's orderly close is only observable through a failing write or the "
